@@ -8,9 +8,10 @@ model ops
                                                   ssh.ParseAuthorizedKey made of the file: `kind:bits:e` or `none`)
 * `certgen <type> <ed25519CA> <hex key file> <parsed>`   status of certGenHandler for an authenticated POST
 * `a reset | a add <comment> <id> cert|plain | a upsert <comment> <id> | a list`   agent
+* `a install <comment> <id> <fault>…`            the client's attempts (one fault word each: ok|list|remove<k>|add|life)
 * `install <pref> agent|noagent <ca> full|ssh`    what the client leaves on disk / in the agent
 
-judge ops: `offered …`, `agent …`, `wire …` — the predicates of c19_offer_accepted, c19_agent and
+judge ops: `offered …`, `agent …`, `retry …`, `wire …` — the predicates of c19_offer_accepted, c19_agent and
 the runtime absence check. -/
 namespace KM.Driver.C19
 open KM.Util KM.Client KM.ClientSite
@@ -78,6 +79,14 @@ def parseEntry (s : String) : Option Entry :=
 def parseEntries (s : String) : Option (List Entry) :=
   if s == "-" then some [] else (s.splitOn ",").mapM parseEntry
 
+/-- `ok | list | remove<k> | add | life` (an agent refusing lifetime constraints fails the `Add`) -/
+def parseFault (s : String) : Option Fault :=
+  if s == "ok" then some .none
+  else if s == "list" then some .list
+  else if s == "add" || s == "life" then some .add
+  else if s.startsWith "remove" then (s.drop 6).toNat?.map Fault.remove
+  else none
+
 def astep (a : List Entry) : List String → List Entry × String
   | ["reset"] => ([], "reset")
   | ["add", c, id, k] =>
@@ -93,6 +102,15 @@ def astep (a : List Entry) : List String → List Entry × String
     | some c, some id => let a' := agentUpsert a ⟨c.toList, id, true⟩; (a', listStr a')
     | _, _ => (a, "bad-op")
   | ["list"] => (a, listStr a)
+  | "install" :: c :: id :: fs =>
+    -- the client's installation sequence, one fault word per attempt (`Client.install`)
+    -- only the first attempt carries a lifetime: `life` on a retry is an attempt that succeeds
+    match unhex c, id.toNat?, (fs.take 1 ++ (fs.drop 1).map fun w => if w == "life" then "ok" else w).mapM parseFault with
+    | some c, some id, some fs =>
+      if fs.isEmpty then (a, "bad-op") else
+      let r := install a ⟨c.toList, id, true⟩ fs
+      (r.1, s!"{if r.2 then "ok" else "fail"} {listStr r.1}")
+    | _, _, _ => (a, "bad-op")
   | _ => (a, "bad-op")
 
 /-! ### what an installation leaves behind (setupCerts / insertSSHCertIntoAgentORWriteToFilesystem) -/
@@ -148,6 +166,17 @@ def judgeAgent (new : Entry) (before after : List Entry) : String :=
      else "viol other-entries-changed")
   else "ok"
 
+/-- c19_agent_retry on what the agent holds after the client's installation sequence (attempt, retry)
+against an agent failing single requests: if the new certificate is in the agent it is there as
+`c19_agent` says (the only certificate under its label, the rest as before); if it is not, nothing
+but certificates with that label has gone and nothing has appeared -/
+def judgeRetry (new : Entry) (before after : List Entry) : String :=
+  if after.contains new then judgeAgent new before after
+  else if sortStrs ((after.filter (fun e => !isDup new e)).map entryStr) !=
+      sortStrs ((before.filter (fun e => !isDup new e)).map entryStr) then "viol other-entries-changed"
+  else if !(after.all fun e => before.contains e) then "viol entry-appeared"
+  else "ok"
+
 def judge : List String → String
   | ["offered", _pref, _cert, mand, ca, status] =>
     match parseBool mand, parseBool ca with
@@ -156,6 +185,10 @@ def judge : List String → String
   | ["agent", c, id, before, after] =>
     match unhex c, id.toNat?, parseEntries before, parseEntries after with
     | some c, some id, some b, some af => judgeAgent ⟨c.toList, id, true⟩ b af
+    | _, _, _, _ => "bad-op"
+  | ["retry", c, id, before, after] =>
+    match unhex c, id.toNat?, parseEntries before, parseEntries after with
+    | some c, some id, some b, some af => judgeRetry ⟨c.toList, id, true⟩ b af
     | _, _, _, _ => "bad-op"
   | ["planted", captured, conns, priv600, privOther] =>
     -- c19_install_dest: with no agent configured the key ends in a 0600 file and nowhere else
